@@ -32,6 +32,8 @@ pub fn headers() -> Vec<RHeader> {
         RHeader { key_id: b"11".to_vec(), rest: vec![(l_text("x"), u(1))], ..Default::default() },
         RHeader { partial_iv: b"p".to_vec(), ..Default::default() },
         RHeader { iv: b"i".to_vec(), ..Default::default() },
+        // crit and exactly one counter signature (the bare, non-list form), in either bucket
+        RHeader { alg: Some(l_int(-8)), crit: vec![l_int(1)], counter_signatures: vec![sig_reps()[1].clone()], ..Default::default() },
     ]
 }
 pub fn payloads() -> Vec<Vec<u8>> {
@@ -82,7 +84,7 @@ pub enum MOp {
 }
 
 pub fn ops_of(kind: Kind) -> Vec<MOp> {
-    let mut v = vec![MOp::Protected(0), MOp::Protected(1), MOp::Protected(2), MOp::Protected(3), MOp::Protected(4), MOp::Unprotected(0), MOp::Unprotected(2), MOp::Unprotected(3), MOp::Unprotected(4)];
+    let mut v = vec![MOp::Protected(0), MOp::Protected(1), MOp::Protected(2), MOp::Protected(3), MOp::Protected(4), MOp::Protected(5), MOp::Unprotected(0), MOp::Unprotected(2), MOp::Unprotected(3), MOp::Unprotected(4), MOp::Unprotected(5)];
     match kind {
         Kind::Signature => v.push(MOp::Blob(0)),
         Kind::Sign1 => {
